@@ -45,6 +45,10 @@ def handle : Handler
         let tail := if inex.isEmpty then "" else " inexact=" ++ showStrs inex
         if l.raceFree then "racefree" ++ tail
         else "racy " ++ (match l.firstBad with | some a => a.show.replace " " "_" | none => "?") ++ tail
+  | "c16.pinned", [n] => some <| match findLoop n, pinnedLoops.find? (·.name == n) with
+      | some l, some p => if l == p then "same" else "changed"
+      | some _, none => "new-loop"
+      | none, _ => "no-such-loop"
   | "c16.loopdesc", [n] => some <| match findLoop n with
       | none => "no-such-loop"
       | some l => ";".intercalate (l.accs.map fun a => a.show.replace " " "_")
